@@ -239,43 +239,68 @@ End Proofs.
 (* ---------- schedules of the handle-timeout race ---------- *)
 Section Schedules.
   Variable r : request.
-  Variable p : reply.   (* what Invoke computes for r *)
+  Variable p : reply.   (* what Invoke computes for r when it is entered before the deadline *)
   Hypothesis p_ident : p_id p = q_id r /\ p_ver p = q_ver r /\ p_ptype p = q_ptype r.
 
   Definition tmo : reply := with_ret (base_reply r) 1 timeout_text.
 
+  Lemma timeout_replies_twoway : oneway r = false -> timeout_replies r = [tmo].
+  Proof. intros H. unfold timeout_replies. rewrite H. reflexivity. Qed.
+  Lemma timeout_replies_oneway : oneway r = true -> timeout_replies r = [].
+  Proof. intros H. unfold timeout_replies. rewrite H. reflexivity. Qed.
+
   (* invariant of every reachable state *)
   Definition hinv (s : hstate) : Prop :=
+    (s_late s = true -> s_fired s = true /\ s_started s = true) /\
     (s_returned s = true -> s_started s = true) /\
-    (forall x, s_picked s = Some x -> (x = p /\ s_returned s = true) \/ (x = tmo /\ s_fired s = true)) /\
-    (forall l, s_written s = Some l -> exists x, s_picked s = Some x /\ (l = [] \/ l = [x])) /\
-    (forall l, s_written s = Some l -> q_ptype r <> c_TARSONEWAY -> exists x, s_picked s = Some x /\ l = [x]).
+    (forall l, s_picked s = Some l ->
+       (s_returned s = true /\ ((l = [p] /\ s_late s = false) \/ (l = [late_reply r] /\ s_late s = true))) \/
+       (l = timeout_replies r /\ s_fired s = true)) /\
+    (forall w, s_written s = Some w -> exists l, s_picked s = Some l /\ (w = [] \/ w = l)) /\
+    (forall w, s_written s = Some w -> oneway r = false -> exists l, s_picked s = Some l /\ w = l) /\
+    (forall w, s_written s = Some w -> oneway r = true -> w = []).
 
   Lemma hinv_init : hinv hinit.
   Proof. unfold hinv, hinit; cbn. repeat split; intros; discriminate. Qed.
 
   Lemma hinv_step s l s' : hinv s -> hstep r p s l = Some s' -> hinv s'.
   Proof.
-    intros (I1 & I2 & I3 & I4) H. destruct l; cbn [hstep] in H.
-    - destruct (s_started s) eqn:E; [discriminate|]. inversion H; subst; clear H. unfold hinv; cbn. repeat split; auto.
-    - destruct (s_started s && negb (s_returned s)) eqn:E; [|discriminate]. inversion H; subst; clear H. unfold hinv; cbn.
-      repeat split; auto. intros x Hx. destruct (I2 x Hx) as [[-> _]|[-> F]]; auto.
-    - destruct (s_fired s) eqn:E; [discriminate|]. inversion H; subst; clear H. unfold hinv; cbn. repeat split; auto.
-      intros x Hx. destruct (I2 x Hx) as [[-> R]|[-> F]]; auto.
-    - destruct (s_picked s) eqn:E; [discriminate|]. destruct (s_returned s || s_fired s) eqn:E2; [|discriminate].
-      inversion H; subst; clear H. unfold hinv; cbn. repeat split; auto.
-      + intros x Hx. inversion Hx; subst; clear Hx. destruct (s_returned s) eqn:R; [left; auto|right; split; [reflexivity|]].
-        cbn in E2. exact E2.
-      + intros l Hl. destruct (I3 l Hl) as (x & Hx & _). congruence.
-      + intros l Hl. destruct (I3 l Hl) as (x & Hx & _). congruence.
-    - destruct (s_picked s) as [x|] eqn:E; [|discriminate]. destruct (s_written s) eqn:E2; [discriminate|].
-      inversion H; subst; clear H. unfold hinv; cbn. repeat split; auto.
-      + intros l Hl. inversion Hl; subst; clear Hl. exists x. split; [first [exact E | reflexivity]|].
-        destruct (_ =? _)%Z; auto.
-      + intros l Hl Hw. inversion Hl; subst; clear Hl. exists x. split; [first [exact E | reflexivity]|].
-        destruct (s_started s).
-        * destruct (q_ptype r =? c_TARSONEWAY)%Z eqn:X; [lia|reflexivity].
-        * reflexivity.
+    intros (I0 & I1 & I2 & I3 & I4 & I5) H. destruct l; cbn [hstep] in H.
+    - (* Start *)
+      destruct (s_started s) eqn:E; [discriminate|]. inversion H; subst; clear H. unfold hinv; cbn.
+      split; [intros F; auto|]. split; [auto|]. split; [|auto].
+      intros l Hl. destruct (I2 l Hl) as [[R _]|X]; [|right; exact X].
+      specialize (I1 R). congruence.
+    - (* Return *)
+      destruct (s_started s && negb (s_returned s)) eqn:E; [|discriminate]. inversion H; subst; clear H. unfold hinv; cbn.
+      split; [intros F; destruct (I0 F); auto|]. split; [auto|]. split; [|auto].
+      intros l Hl. destruct (I2 l Hl) as [[R _]|X]; [|right; exact X].
+      rewrite R in E. rewrite andb_false_r in E. discriminate.
+    - (* Fire *)
+      destruct (s_fired s) eqn:E; [discriminate|]. inversion H; subst; clear H. unfold hinv; cbn.
+      split; [intros F; destruct (I0 F); auto|]. split; [auto|]. split; [|auto].
+      intros l Hl. destruct (I2 l Hl) as [X|[X _]]; [left; exact X|right; auto].
+    - (* Wake *)
+      destruct (s_picked s) eqn:E; [discriminate|]. destruct (s_returned s || s_fired s) eqn:E2; [|discriminate].
+      inversion H; subst; clear H. unfold hinv; cbn.
+      split; [exact I0|]. split; [exact I1|]. split; [|split; [|split]].
+      + intros l Hl. inversion Hl; subst; clear Hl. destruct (s_returned s) eqn:R.
+        * left. split; [reflexivity|]. destruct (s_late s); auto.
+        * right. split; [reflexivity|]. cbn in E2. exact E2.
+      + intros w Hw. destruct (I3 w Hw) as (l & Hl & _). discriminate.
+      + intros w Hw. destruct (I3 w Hw) as (l & Hl & _). discriminate.
+      + intros w Hw. destruct (I3 w Hw) as (l & Hl & _). discriminate.
+    - (* Write *)
+      destruct (s_picked s) as [x|] eqn:E; [|discriminate]. destruct (s_written s) eqn:E2; [discriminate|].
+      inversion H; subst; clear H. unfold hinv; cbn.
+      split; [exact I0|]. split; [exact I1|]. split; [exact I2|]. split; [|split].
+      + intros w Hw. inversion Hw; subst; clear Hw. exists x. split; [reflexivity|]. destruct (_ =? _)%Z; auto.
+      + intros w Hw W. inversion Hw; subst; clear Hw. exists x. split; [reflexivity|].
+        unfold oneway in W. destruct (s_returned s); [rewrite W; reflexivity|reflexivity].
+      + intros w Hw W. inversion Hw; subst; clear Hw. unfold oneway in W.
+        destruct (s_returned s) eqn:R; [rewrite W; reflexivity|].
+        destruct (I2 x eq_refl) as [[R' _]|[-> _]]; [congruence|].
+        change (0 =? c_TARSONEWAY)%Z with false. cbv iota. apply timeout_replies_oneway. exact W.
   Qed.
 
   Lemma hinv_run ls : forall s s', hinv s -> hrun_labels r p s ls = Some s' -> hinv s'.
@@ -285,26 +310,49 @@ Section Schedules.
     - destruct (hstep r p s l) as [s1|] eqn:E; [|discriminate]. eapply IH; [eapply hinv_step; eassumption|exact H].
   Qed.
 
+  Lemma late_reply_ident : p_id (late_reply r) = q_id r /\ p_ver (late_reply r) = q_ver r /\ p_ptype (late_reply r) = q_ptype r.
+  Proof. cbn. auto. Qed.
+
   (* every schedule: whatever has been written for a two-way request is exactly one reply - the result of Invoke
-     (only if Invoke had returned) or the timeout error (only if the deadline had passed) - and it carries the
-     request's id, version and packet type *)
-  Theorem schedules_twoway ls s : hrun_labels r p hinit ls = Some s -> q_ptype r <> c_TARSONEWAY ->
-    forall l, s_written s = Some l ->
-      exists x, l = [x] /\ ((x = p /\ s_returned s = true) \/ (x = tmo /\ s_fired s = true)) /\
+     (only if Invoke had returned), the queue-timeout answer of an Invoke that was entered after the deadline, or the
+     timeout error (only if the deadline had passed) - and it carries the request's id, version and packet type *)
+  Theorem schedules_twoway ls s : hrun_labels r p hinit ls = Some s -> oneway r = false ->
+    forall w, s_written s = Some w ->
+      exists x, w = [x] /\
+                ((x = p /\ s_returned s = true /\ s_late s = false) \/
+                 (x = late_reply r /\ s_returned s = true /\ s_fired s = true) \/
+                 (x = tmo /\ s_fired s = true)) /\
                 p_id x = q_id r /\ p_ver x = q_ver r /\ p_ptype x = q_ptype r.
   Proof.
-    intros H W l Hl. destruct (hinv_run ls _ _ hinv_init H) as (_ & I2 & _ & I4).
-    destruct (I4 l Hl W) as (x & Hx & ->). exists x. split; [reflexivity|]. split; [exact (I2 x Hx)|].
-    destruct (I2 x Hx) as [[-> _]|[-> _]]; [exact p_ident|cbn; auto].
+    intros H W w Hw. destruct (hinv_run ls _ _ hinv_init H) as (I0 & _ & I2 & _ & I4 & _).
+    destruct (I4 w Hw W) as (l & Hl & ->).
+    destruct (I2 l Hl) as [[R [[-> L]|[-> L]]]|[-> F]].
+    - exists p. split; [reflexivity|]. split; [left; auto|exact p_ident].
+    - exists (late_reply r). split; [reflexivity|]. split; [right; left; destruct (I0 L); auto|exact late_reply_ident].
+    - rewrite (timeout_replies_twoway W). exists tmo. split; [reflexivity|]. split; [right; right; auto|cbn; auto].
   Qed.
 
-  (* every schedule: at most one reply, ever; the written list never changes once set *)
-  Theorem schedules_at_most_one ls s : hrun_labels r p hinit ls = Some s ->
-    forall l, s_written s = Some l -> (length l <= 1)%nat.
+  (* every schedule: a one-way request is never answered *)
+  Theorem schedules_oneway ls s : hrun_labels r p hinit ls = Some s -> oneway r = true ->
+    forall w, s_written s = Some w -> w = [].
   Proof.
-    intros H l Hl. destruct (hinv_run ls _ _ hinv_init H) as (_ & _ & I3 & _).
-    destruct (I3 l Hl) as (x & _ & [->| ->]); cbn; lia.
+    intros H W w Hw. destruct (hinv_run ls _ _ hinv_init H) as (_ & _ & _ & _ & _ & I5). exact (I5 w Hw W).
   Qed.
+
+  (* every schedule: at most one reply, ever *)
+  Theorem schedules_at_most_one ls s : hrun_labels r p hinit ls = Some s ->
+    forall w, s_written s = Some w -> (length w <= 1)%nat.
+  Proof.
+    intros H w Hw. destruct (hinv_run ls _ _ hinv_init H) as (_ & _ & I2 & I3 & _).
+    destruct (I3 w Hw) as (l & Hl & [->| ->]); [cbn; lia|].
+    destruct (I2 l Hl) as [[_ [[-> _]|[-> _]]]|[-> _]]; cbn; try lia.
+    unfold timeout_replies. destruct (oneway r); cbn; lia.
+  Qed.
+
+  (* the dispatcher is not entered by an Invoke that starts after the deadline; that happens only if the deadline
+     passed before Invoke was entered *)
+  Theorem schedules_late ls s : hrun_labels r p hinit ls = Some s -> s_late s = true -> s_fired s = true /\ s_started s = true.
+  Proof. intros H L. destruct (hinv_run ls _ _ hinv_init H) as (I0 & _). exact (I0 L). Qed.
 
   Lemma hstep_written_stable s l s' w : hstep r p s l = Some s' -> s_written s = Some w -> s_written s' = Some w.
   Proof.
@@ -315,67 +363,12 @@ Section Schedules.
     - destruct (s_picked s); [discriminate|]. destruct (_ || _); [|discriminate]. inversion H; subst; exact Hw.
     - destruct (s_picked s); [|discriminate]. rewrite Hw in H. discriminate.
   Qed.
+  (* the written list never changes once set: the handler writes once *)
   Theorem schedules_write_once ls : forall s s' w, hrun_labels r p s ls = Some s' -> s_written s = Some w -> s_written s' = Some w.
   Proof.
     induction ls as [|l ls IH]; intros s s' w H Hw; cbn [hrun_labels] in H.
     - inversion H; subst; exact Hw.
     - destruct (hstep r p s l) as [s1|] eqn:E; [|discriminate]. eapply IH; [exact H|]. eapply hstep_written_stable; eassumption.
-  Qed.
-
-  (* a one-way request is never answered in a schedule in which Invoke got to decode the request before the handler
-     looked at the packet type *)
-  Definition started_before_write (ls : list hlabel) : Prop :=
-    forall pre post, ls = pre ++ LWrite :: post -> In LStart pre.
-
-  Lemma run_started_mono ls : forall s s', hrun_labels r p s ls = Some s' -> s_started s = true -> s_started s' = true.
-  Proof.
-    induction ls as [|l ls IH]; intros s s' H Hs; cbn [hrun_labels] in H.
-    - inversion H; subst; exact Hs.
-    - destruct (hstep r p s l) as [s1|] eqn:E; [|discriminate]. eapply IH; [exact H|].
-      destruct l; cbn [hstep] in E.
-      + destruct (s_started s); [discriminate|]. inversion E; reflexivity.
-      + destruct (_ && _); [|discriminate]. inversion E; reflexivity.
-      + destruct (s_fired s); [discriminate|]. inversion E; subst; exact Hs.
-      + destruct (s_picked s); [discriminate|]. destruct (_ || _); [|discriminate]. inversion E; subst; exact Hs.
-      + destruct (s_picked s); [|discriminate]. destruct (s_written s); [discriminate|]. inversion E; subst; exact Hs.
-  Qed.
-
-  Lemma run_oneway ls : forall s s', hrun_labels r p s ls = Some s' -> q_ptype r = c_TARSONEWAY ->
-    (s_started s = false -> forall pre post, ls = pre ++ LWrite :: post -> In LStart pre) ->
-    (forall l, s_written s = Some l -> l = []) ->
-    forall l, s_written s' = Some l -> l = [].
-  Proof.
-    induction ls as [|a ls IH]; intros s s' H W Hb Hw l Hl; cbn [hrun_labels] in H.
-    - inversion H; subst. auto.
-    - destruct (hstep r p s a) as [s1|] eqn:E; [|discriminate].
-      eapply IH; [exact H|exact W| | |exact Hl].
-      + intros Hs1 pre post Heq. destruct a.
-        * cbn [hstep] in E. destruct (s_started s); [discriminate|]. inversion E; subst. discriminate.
-        * cbn [hstep] in E. destruct (_ && _); [|discriminate]. inversion E; subst. discriminate.
-        * assert (Hs : s_started s = false). { cbn [hstep] in E. destruct (s_fired s); [discriminate|]. inversion E; subst. exact Hs1. }
-          specialize (Hb Hs (LFire :: pre) post (f_equal (cons LFire) Heq)). destruct Hb as [X|X]; [discriminate|exact X].
-        * assert (Hs : s_started s = false). { cbn [hstep] in E. destruct (s_picked s); [discriminate|]. destruct (_ || _); [|discriminate]. inversion E; subst. exact Hs1. }
-          specialize (Hb Hs (LWake :: pre) post (f_equal (cons LWake) Heq)). destruct Hb as [X|X]; [discriminate|exact X].
-        * assert (Hs : s_started s = false). { cbn [hstep] in E. destruct (s_picked s); [|discriminate]. destruct (s_written s); [discriminate|]. inversion E; subst. exact Hs1. }
-          specialize (Hb Hs [] (ls) eq_refl). destruct Hb.
-      + intros l1 Hl1. destruct a; cbn [hstep] in E.
-        * destruct (s_started s); [discriminate|]. inversion E; subst. auto.
-        * destruct (_ && _); [|discriminate]. inversion E; subst. auto.
-        * destruct (s_fired s); [discriminate|]. inversion E; subst. auto.
-        * destruct (s_picked s); [discriminate|]. destruct (_ || _); [|discriminate]. inversion E; subst. auto.
-        * destruct (s_picked s) as [x|]; [|discriminate]. destruct (s_written s); [discriminate|]. inversion E; subst; clear E.
-          cbn in Hl1. inversion Hl1; subst; clear Hl1.
-          destruct (s_started s) eqn:Hs.
-          -- rewrite W. rewrite Z.eqb_refl. reflexivity.
-          -- specialize (Hb eq_refl [] ls eq_refl). destruct Hb.
-  Qed.
-
-  Theorem schedules_oneway ls s : hrun_labels r p hinit ls = Some s -> q_ptype r = c_TARSONEWAY ->
-    started_before_write ls -> forall l, s_written s = Some l -> l = [].
-  Proof.
-    intros H W Hb l Hl. eapply run_oneway; [exact H|exact W| | |exact Hl].
-    - intros _. exact Hb.
-    - cbn. intros ? X. discriminate.
   Qed.
 
   (* progress: from every reachable state the handler can still finish - nothing the other parties do or fail to do
@@ -625,56 +618,32 @@ Section ServedSchedules.
 
   Theorem served_schedules_twoway r queued ls s :
     hrun_labels r (inv_reply r queued) hinit ls = Some s -> oneway r = false ->
-    forall l, s_written s = Some l ->
-      exists x, l = [x] /\
-                ((x = inv_reply r queued /\ s_returned s = true) \/ (x = handle_timeout_reply r /\ s_fired s = true)) /\
+    forall w, s_written s = Some w ->
+      exists x, w = [x] /\
+                ((x = inv_reply r queued /\ s_returned s = true /\ s_late s = false) \/
+                 (x = late_reply r /\ s_returned s = true /\ s_fired s = true) \/
+                 (x = handle_timeout_reply r /\ s_fired s = true)) /\
                 p_id x = q_id r /\ p_ver x = q_ver r /\ p_ptype x = q_ptype r.
-  Proof.
-    intros H W. apply (schedules_twoway r (inv_reply r queued) (inv_reply_ident r queued) ls s H).
-    unfold oneway in W. lia.
-  Qed.
-
-  Theorem served_schedules_oneway r queued ls s :
-    hrun_labels r (inv_reply r queued) hinit ls = Some s -> oneway r = true ->
-    started_before_write ls -> forall l, s_written s = Some l -> l = [].
-  Proof.
-    intros H W. apply (schedules_oneway r (inv_reply r queued) ls s H). unfold oneway in W. lia.
-  Qed.
+  Proof. intros H W. exact (schedules_twoway r (inv_reply r queued) (inv_reply_ident r queued) ls s H W). Qed.
 
   (* the function server_step is the outcome of one of the schedules: Invoke first when it is the faster one,
      the deadline first otherwise *)
   Theorem function_is_a_schedule cfg r queued : 0 < c_ht cfg ->
-    exists ls s, hrun_labels r (inv_reply r queued) hinit ls = Some s /\ started_before_write ls /\
+    exists ls s, hrun_labels r (inv_reply r queued) hinit ls = Some s /\ s_late s = false /\
                  s_written s = Some (map snd (fst (server_step dispatch cfg r queued))).
   Proof.
     intros Hht. unfold server_step, inv_reply.
     destruct (invoke dispatch r queued) as [[[o p] n] dur] eqn:E. cbn [fst snd].
-    assert (Hsb : forall tl, started_before_write (LStart :: tl)).
-    { intros tl pre post Heq. destruct pre as [|a pre]; [discriminate|]. inversion Heq; subst. left. reflexivity. }
     destruct (oneway r) eqn:W.
-    - exists [LStart; LReturn; LWake; LWrite]. eexists. split; [reflexivity|]. split; [apply Hsb|].
+    - exists [LStart; LReturn; LWake; LWrite]. eexists. split; [reflexivity|]. split; [reflexivity|].
       cbn. unfold oneway in W. rewrite W. reflexivity.
     - destruct ((0 <? c_ht cfg) && (c_ht cfg <=? dur)) eqn:O.
-      + exists [LStart; LFire; LWake; LWrite; LReturn]. eexists. split; [reflexivity|]. split; [apply Hsb|].
-        cbn. unfold oneway in W. rewrite W. reflexivity.
-      + exists [LStart; LReturn; LWake; LWrite]. eexists. split; [reflexivity|]. split; [apply Hsb|].
+      + exists [LStart; LFire; LWake; LWrite; LReturn]. eexists. split; [reflexivity|]. split; [reflexivity|].
+        cbn. unfold timeout_replies. rewrite W. reflexivity.
+      + exists [LStart; LReturn; LWake; LWrite]. eexists. split; [reflexivity|]. split; [reflexivity|].
         cbn. unfold oneway in W. rewrite W. reflexivity.
   Qed.
 End ServedSchedules.
-
-(* full-strength statement for one-way requests under a handle timeout: no schedule answers them. It is false of
-   the model: if the deadline passes before the goroutine running Invoke has decoded the request, the handler
-   still reads packet type 0 and writes the timeout reply. *)
-Definition schedules_oneway_statement : Prop :=
-  forall r p ls s, hrun_labels r p hinit ls = Some s -> q_ptype r = c_TARSONEWAY ->
-  forall l, s_written s = Some l -> l = [].
-Definition oneway_witness : request :=
-  {| q_ver := 1; q_ptype := c_TARSONEWAY; q_mtype := 0; q_id := 5; q_servant := []; q_func := raw "act"%hex;
-     q_buf := []; q_timeout := 0; q_ctx := []; q_status := [] |}.
-Theorem schedules_oneway_refuted :
-  exists r p ls s, hrun_labels r p hinit ls = Some s /\ q_ptype r = c_TARSONEWAY /\
-                   s_written s = Some [handle_timeout_reply r].
-Proof. exists oneway_witness, (base_reply oneway_witness), [LFire; LWake; LWrite]. eexists. vm_compute. repeat split. Qed.
 
 (* ---------- concrete instances (no implication above is vacuous) ---------- *)
 Definition ex_req : request :=
@@ -725,18 +694,23 @@ Proof.
   apply (il_cons [[1; 2]] 3 [] []). apply (il_cons [] 1 [2] [[]]). apply (il_cons [] 2 [] [[]]).
   apply il_nil. repeat constructor.
 Qed.
-Example ex_started_before_write : started_before_write [LStart; LFire; LWake; LWrite; LReturn] /\
-                                  ~ started_before_write [LFire; LWake; LWrite].
-Proof.
-  split.
-  - intros pre post H. destruct pre as [|a pre]; [discriminate|]. inversion H; subst. left. reflexivity.
-  - intros H. destruct (H [LFire; LWake] [] eq_refl) as [X|[X|[]]]; discriminate.
-Qed.
 (* the two schedules of a real race end differently, both within the theorem *)
 Example ex_race :
   option_map s_written (hrun_labels ex_req (base_reply ex_req) hinit [LStart; LFire; LReturn; LWake; LWrite]) = Some (Some [base_reply ex_req]) /\
-  option_map s_written (hrun_labels ex_req (base_reply ex_req) hinit [LStart; LFire; LWake; LReturn; LWrite]) = Some (Some [handle_timeout_reply ex_req]).
-Proof. vm_compute. split; reflexivity. Qed.
+  option_map s_written (hrun_labels ex_req (base_reply ex_req) hinit [LStart; LFire; LWake; LReturn; LWrite]) = Some (Some [handle_timeout_reply ex_req]) /\
+  (* the goroutine running Invoke is held back beyond the deadline: queue-timeout answer or timeout error *)
+  option_map s_written (hrun_labels ex_req (base_reply ex_req) hinit [LFire; LStart; LReturn; LWake; LWrite]) = Some (Some [late_reply ex_req]) /\
+  option_map s_written (hrun_labels ex_req (base_reply ex_req) hinit [LFire; LWake; LWrite; LStart; LReturn]) = Some (Some [handle_timeout_reply ex_req]).
+Proof. vm_compute. repeat split; reflexivity. Qed.
+(* the same schedules for a one-way request: nothing is written, also when the handler wakes before Invoke has started *)
+Definition ex_oneway : request :=
+  {| q_ver := 1; q_ptype := c_TARSONEWAY; q_mtype := 0; q_id := 5; q_servant := []; q_func := raw "act"%hex;
+     q_buf := []; q_timeout := 0; q_ctx := []; q_status := [] |}.
+Example ex_oneway_schedules :
+  option_map s_written (hrun_labels ex_oneway (base_reply ex_oneway) hinit [LFire; LWake; LWrite]) = Some (Some []) /\
+  option_map s_written (hrun_labels ex_oneway (base_reply ex_oneway) hinit [LStart; LFire; LWake; LWrite; LReturn]) = Some (Some []) /\
+  option_map s_written (hrun_labels ex_oneway (base_reply ex_oneway) hinit [LStart; LReturn; LWake; LWrite]) = Some (Some []).
+Proof. vm_compute. repeat split; reflexivity. Qed.
 Example ex_bodyless_hyps :
   let p := with_ret (base_reply ex_req) 78 (raw "boom"%hex) in
   reply_typed p /\ p_buf p = [] /\ p_status p = [] /\ p_ctx p = [] /\
